@@ -19,6 +19,9 @@ __TAPKEE_IMPLEMENTATION(tDistributedStochasticNeighborEmbedding)
     {
         parameters[sne_perplexity].checked().satisfies(InClosedRange<ScalarType>(0.0, (n_vectors - 1) / 3.0)).orThrow();
         parameters[sne_theta].checked().satisfies(NonNegativity<ScalarType>()).orThrow();
+        // the Barnes-Hut approximation is implemented with a quadtree, i.e. for planar maps only
+        if (!parameters[sne_theta].is(static_cast<ScalarType>(0.0)) && !parameters[target_dimension].is(static_cast<IndexType>(2)))
+            throw unsupported_method_error("Barnes-Hut t-SNE (theta > 0) supports only target dimension 2, use theta = 0");
     }
 
     TapkeeOutput embed()
